@@ -42,6 +42,18 @@ let () =
             let g = int_of_string g and lim = int_of_string lim in
             if g >= lim then raise (Direct (Printf.sprintf "claim with limit %d returned %d (line %d)" lim g ln))
           | _ -> ()) evs;
+        (* the rewind timestamp is published before the cursor is rewound: a reader that sees the
+           rewound cursor must also see the timestamp (context.rs:  tick, lower_timestamps, rewind) *)
+        let pending = Hashtbl.create 8 in
+        List.iter (fun (ln, t) -> match t with
+          | tid :: "cur_call_rewind" :: _ -> Hashtbl.replace pending tid false
+          | tid :: "lower_max" :: _ -> if Hashtbl.mem pending tid then Hashtbl.replace pending tid true
+          | tid :: "cur_rewind" :: v :: _ ->
+            (match Hashtbl.find_opt pending tid with
+             | Some false -> raise (Direct (Printf.sprintf "rewind_validation_to(%s) rewound the cursor before publishing its timestamp (line %d): a finality check that sees the rewound cursor can still read the old lower timestamp" v ln))
+             | _ -> ());
+            Hashtbl.remove pending tid
+          | _ -> ()) evs;
         List.iter (fun (ln, v, p) ->
           for x = v to p - 1 do
             if not (List.exists (fun (cl, c) -> cl > ln && c = x) claims) && final > x then
